@@ -390,6 +390,67 @@ func (e *Exec) pick(t *Term) int64 {
 	return vals[0]
 }
 
+// narrow replaces a guarded value set by its only feasible value when the path
+// condition already pins it (sound: the equality is implied, nothing is
+// assumed). Pooled models supply candidate values; one query confirms
+// uniqueness.
+func (e *Exec) narrow(t *Term) *Term {
+	if t.IsConst() || !t.isConstTree() || e.lazy > 0 {
+		return t
+	}
+	var cand uint64
+	have := false
+	for _, pm := range e.models {
+		if pm.dead {
+			continue
+		}
+		if pm.upTo > len(e.pc) {
+			pm.upTo = 0
+		}
+		ok := true
+		for pm.upTo < len(e.pc) {
+			if Eval(e.pc[pm.upTo], pm.m, pm.memo) != 1 {
+				ok = false
+				break
+			}
+			pm.upTo++
+		}
+		if !ok {
+			pm.dead = true
+			continue
+		}
+		v := Eval(t, pm.m, pm.memo)
+		if have && v != cand {
+			return t
+		}
+		cand, have = v, true
+	}
+	if !have {
+		r, m := e.sat()
+		if r != Sat {
+			return t
+		}
+		e.addModel(m)
+		cand = Eval(t, m, map[int]uint64{})
+	}
+	k := e.ctx.BV(cand, t.W)
+	ne := e.ctx.Ne(t, k)
+	if e.knownUnsat(ne) {
+		return k
+	}
+	r, m := e.sat(ne)
+	switch r {
+	case Unsat:
+		e.storeUnsat(ne)
+		return k
+	case Sat:
+		e.pc = append(e.pc, ne)
+		e.addModel(m)
+		e.pc = e.pc[:len(e.pc)-1]
+	}
+	return t
+}
+
 // enumerate lists every feasible value of t with the solver.
 func (e *Exec) enumerate(t *Term) ([]int64, []*Term) {
 	var vals []int64
